@@ -251,7 +251,11 @@ func WrapHEIF(tiff []byte, brand string, rng *rand.Rand, lvl int) []byte {
 	hdlr := FullBox("hdlr", 0, 0, u32(0), []byte("pict"), make([]byte, 12), []byte{0})
 	pitm := FullBox("pitm", 0, 0, u16(1))
 	infe := func(id int, typ string) []byte {
-		return FullBox("infe", 2, 0, u16(id), u16(0), []byte(typ), []byte{0})
+		name := []byte{0}
+		if lvl >= 1 && typ != "Exif" { // item names are legal and optional: the image item carries one
+			name = []byte("Image\x00")
+		}
+		return FullBox("infe", 2, 0, u16(id), u16(0), []byte(typ), name)
 	}
 	codec := "hvc1"
 	if brand == "avif" {
